@@ -1,6 +1,7 @@
 (* C15_Props.v — the property theorems of C15 and nothing else.
    Each is closed by `exact <lemma>` and followed by Print Assumptions. *)
-From V Require Import C15_Spec C15_Proofs C15_ProofsL3.
+From Coq Require Import Permutation.
+From V Require Import C15_Spec C15_SpecL3 C15_Proofs C15_ProofsL3 C15_ProofsL3b.
 Open Scope N_scope.
 
 (* ---- L1: transparency.  Whatever state the tracer is in (any conn value, reachable or not), whatever
@@ -82,6 +83,86 @@ Theorem interleaving_independent : forall client fs fs' s st1 a1 st2 a2,
 Proof. exact interleaving_independent_proof. Qed.
 Print Assumptions interleaving_independent.
 
+(* ---- L3: content.  `exchange sid frames o` (C15_SpecL3) is the grammar of a well-formed stream over decoded
+   frames: request HEADERS, request DATA*, END_STREAM on a DATA / on trailers / on the HEADERS; response HEADERS,
+   DATA*, END_STREAM on a DATA / on trailers / on the HEADERS (trailers-only); the two directions interleaved in
+   any order; RST_STREAM by either peer at any point; late DATA/RST after the end.  It generates the expected
+   outcome with the frames: Done t (t = request line and headers, messages of both directions numbered in order,
+   status, response headers, trailers, end or reset) or Open (not over yet).  For EVERY exchange of the grammar,
+   alone on a connection: the run exists, the traces handed to the collector - by this stream and in total - are
+   exactly `traces_of o`: the one trace t if the request carries a test name and the stream is over, none
+   otherwise; and the stream is gone from the table afterwards. *)
+Theorem single_stream_trace_content : forall client sid frames o,
+  exchange sid frames o ->
+  exists st acts, sm_run client sm_init frames = Some (st, acts) /\
+    all_completions acts = traces_of o /\ completions_of sid acts = traces_of o /\
+    (forall t, o = Done t -> is_nil (t_name t) = false -> m_get sid (m_streams st) = None).
+Proof. exact single_stream_trace_content_proof. Qed.
+Print Assumptions single_stream_trace_content.
+
+(* ... and so, with stream_independent, for ANY interleaving (interleaving_of: distinct stream ids; the frames of
+   each stream, in order, are an exchange of the grammar; anything else on the connection is a frame handleFrame
+   ignores) of ANY number of concurrent well-formed streams: every stream completes exactly its expected traces,
+   and the multiset of all traces completed on the connection is the multiset of the expected ones - one per
+   finished stream with a test name, none for streams without. *)
+Theorem wellformed_interleaving_traces : forall client xs fs,
+  interleaving_of xs fs ->
+  exists st acts, sm_run client sm_init fs = Some (st, acts) /\
+    (forall e, In e xs -> completions_of (xc_sid e) acts = traces_of (xc_out e)) /\
+    Permutation (all_completions acts) (flat_map (fun e => traces_of (xc_out e)) xs).
+Proof. exact wellformed_interleaving_traces_proof. Qed.
+Print Assumptions wellformed_interleaving_traces.
+
+(* ---- L3: no test name, no trace.  For ALL frame lists (any streams, any interleaving, well-formed or not, GOAWAYs
+   included): a stream id on which no request HEADERS carries a test name never completes a trace. *)
+Theorem no_name_no_trace : forall client fs s,
+  no_name_on s fs ->
+  exists st acts, sm_run client sm_init fs = Some (st, acts) /\ completions_of s acts = [].
+Proof. exact no_name_no_trace_proof. Qed.
+Print Assumptions no_name_no_trace.
+
+(* ---- L3: GOAWAY.  For ALL frame lists before and after it: a GOAWAY leaves every stream at or below its
+   last-stream-id exactly as it would be without the GOAWAY - same traces, same final state.  (`spares s`: no
+   earlier GOAWAY has cut s off already; a later GOAWAY with a higher id would lift that, as the code overwrites
+   maxStreamID.) *)
+Theorem goaway_keeps_lower : forall client pre d last code post s,
+  s <= last -> Forall (spares s) pre ->
+  exists st1 a1 st2 a2,
+    sm_run client sm_init (pre ++ (d, FGoAway last code) :: post) = Some (st1, a1) /\
+    sm_run client sm_init (pre ++ post) = Some (st2, a2) /\
+    completions_of s a1 = completions_of s a2 /\
+    m_get s (m_streams st1) = m_get s (m_streams st2).
+Proof. exact goaway_keeps_lower_proof. Qed.
+Print Assumptions goaway_keeps_lower.
+
+(* a stream above a (non-zero) last-stream-id is abandoned exactly as setMaxStreamIDLocked does (abandon_resp on
+   its table entry, if it has one), is gone afterwards, and nothing that follows on the connection (short of
+   another GOAWAY) makes it complete anything or reappear *)
+Theorem goaway_cancels_higher_any : forall client pre d last code post s,
+  last < s -> last <> 0 -> Forall (fun f => is_goaway (snd f) = false) post ->
+  exists st0 a0 st1 a1,
+    sm_run client sm_init pre = Some (st0, a0) /\
+    sm_run client sm_init (pre ++ (d, FGoAway last code) :: post) = Some (st1, a1) /\
+    completions_of s a1 =
+      completions_of s a0 ++
+      flat_map (fun e => match abandon_resp (fst e) (snd e) (EConn code) with Some x => completions_of s x | None => [] end)
+               (filter (fun e => fst e =? s) (m_streams st0)) /\
+    m_get s (m_streams st1) = None.
+Proof. exact goaway_cancels_higher_any_proof. Qed.
+Print Assumptions goaway_cancels_higher_any.
+
+(* in terms of the grammar: a well-formed stream still open, in whatever phase, when a GOAWAY with a lower non-zero
+   last-stream-id arrives yields exactly one trace if it carries a test name - what was gathered so far, cut-off
+   messages reported, ended by the connection error - and ignores what its peers still send on it *)
+Theorem goaway_cancels_higher : forall client sid frames x d last code post,
+  exchange sid frames (Open x) -> last < sid -> last <> 0 -> Forall (fun f => own sid f = true) post ->
+  exists st acts,
+    sm_run client sm_init (frames ++ (d, FGoAway last code) :: post) = Some (st, acts) /\
+    completions_of sid acts = x_abandoned x (EConn code) /\
+    m_get sid (m_streams st) = None.
+Proof. exact goaway_cancels_higher_proof. Qed.
+Print Assumptions goaway_cancels_higher.
+
 (* ---- L3: the retry collector.  For ALL action lists around it (mid, mid2: anything that does not name n):
    a retryable completion (REFUSED_STREAM / GOAWAY NO_ERROR) followed by a new attempt with the same test name
    and that attempt's completion delivers exactly the retry's trace for n; the refused attempt's never. *)
@@ -144,3 +225,95 @@ Example ex_reset :
 Proof. vm_compute. reflexivity. Qed.
 Example ex_quiet : quiet [97] (CNew [98]) /\ rc_wf rc_init.
 Proof. split; [discriminate|exact rc_init_wf]. Qed.
+
+(* ---- the grammar is inhabited: two concurrent gRPC-style streams, interleaved, with DATA and trailers ---- *)
+Definition ex_ct : field := (bs "content-type", bs "application/grpc").
+Definition ex_req (n : bytes) : list field :=
+  [(bs ":method", bs "POST"); (bs ":path", bs "/s/M?x"); ex_ct; (bs "x-test-case-name", n)].
+Definition ex_resp : list field := [(bs ":status", bs "200"); ex_ct].
+Definition ex_trailers : list field := [(bs "grpc-status", bs "0")].
+(* stream 1: request message "hi" in one DATA, response message cut over two DATA frames, trailers *)
+Definition ex_s1 : list (bool * dframe) :=
+  [(true, FHeaders 1 false (ex_req [97])); (true, FData 1 true [0; 0; 0; 0; 2; 104; 105]);
+   (false, FHeaders 1 false ex_resp); (false, FData 1 false [0; 0; 0; 0; 3; 1]); (false, FData 1 false [2; 3]);
+   (false, FHeaders 1 true ex_trailers)].
+(* stream 3: request without body, response headers, reset by the server in the middle of a message; a late DATA *)
+Definition ex_s3 : list (bool * dframe) :=
+  [(true, FHeaders 3 true (ex_req [98])); (false, FHeaders 3 false ex_resp); (false, FData 3 false [0; 0; 0; 0; 9; 7]);
+   (false, FRst 3 2); (true, FData 3 false [1])].
+(* stream 5 carries no test name *)
+Definition ex_s5 : list (bool * dframe) :=
+  [(true, FHeaders 5 true [(bs ":path", bs "/p")]); (false, FHeaders 5 true ex_resp)].
+Definition ex_mix : list (bool * dframe) :=
+  [(true, FHeaders 1 false (ex_req [97])); (true, FHeaders 3 true (ex_req [98])); (false, FOther);
+   (true, FHeaders 5 true [(bs ":path", bs "/p")]);
+   (false, FHeaders 3 false ex_resp); (true, FData 1 true [0; 0; 0; 0; 2; 104; 105]);
+   (false, FHeaders 1 false ex_resp); (false, FData 3 false [0; 0; 0; 0; 9; 7]); (false, FData 1 false [0; 0; 0; 0; 3; 1]);
+   (false, FHeaders 5 true ex_resp);
+   (false, FRst 3 2); (false, FData 1 false [2; 3]); (true, FData 3 false [1]); (false, FHeaders 1 true ex_trailers)].
+
+Lemma ex_s1_exchange : exists t, exchange 1 ex_s1 (Done t) /\
+  t_name t = [97] /\ q_path (t_req t) = bs "/s/M" /\ q_query (t_req t) = bs "x" /\
+  t_resp t = Some (200, [ex_ct], ex_trailers) /\ t_err t = ENil /\
+  t_events t = [TReqStart; TReqData 0 (Some (0, 2)) 2; TReqEnd ENil; TRespStart 200 [ex_ct];
+                TRespData 0 (Some (0, 3)) 3; TRespEnd ENil].
+Proof.
+  eexists. split.
+  - unfold ex_s1. eapply X_headers. eapply S_req_data_end; [reflexivity|].
+    eapply S_resp_headers; [reflexivity|]. eapply S_resp_data; [reflexivity|]. eapply S_resp_data; [reflexivity|].
+    eapply S_resp_trailers; [reflexivity|constructor].
+  - vm_compute. repeat split.
+Qed.
+
+Lemma ex_s3_exchange : exists t, exchange 3 ex_s3 (Done t) /\
+  t_name t = [98] /\ t_err t = EStream 2 /\
+  t_events t = [TReqStart; TReqEnd ENil; TRespStart 200 [ex_ct]; TRespData 0 (Some (0, 9)) 1; TRespEnd (EStream 2)].
+Proof.
+  eexists. split.
+  - unfold ex_s3. eapply X_headers_end. eapply S_resp_headers; [reflexivity|]. eapply S_resp_data; [reflexivity|].
+    eapply S_rst_server. repeat constructor.
+  - vm_compute. repeat split.
+Qed.
+
+Lemma ex_s5_exchange : exists t, exchange 5 ex_s5 (Done t) /\ t_name t = [].
+Proof.
+  eexists. split.
+  - unfold ex_s5. eapply X_headers_end. eapply S_resp_only; [reflexivity|constructor].
+  - reflexivity.
+Qed.
+
+(* the hypotheses of wellformed_interleaving_traces are met by a concrete three-stream interleaving *)
+Example ex_interleaving : exists t1 t3 t5,
+  interleaving_of [mkXch 1 ex_s1 (Done t1); mkXch 3 ex_s3 (Done t3); mkXch 5 ex_s5 (Done t5)] ex_mix /\
+  flat_map (fun e => traces_of (xc_out e)) [mkXch 1 ex_s1 (Done t1); mkXch 3 ex_s3 (Done t3); mkXch 5 ex_s5 (Done t5)]
+  = [t1; t3].
+Proof.
+  destruct ex_s1_exchange as (t1 & X1 & N1 & _). destruct ex_s3_exchange as (t3 & X3 & N3 & _).
+  destruct ex_s5_exchange as (t5 & X5 & T5).
+  exists t1, t3, t5. split.
+  - split; [|split].
+    + cbn. repeat (apply NoDup_cons; [cbn; intuition discriminate|]). apply NoDup_nil.
+    + constructor; [split; [exact X1|reflexivity]|]. constructor; [split; [exact X3|reflexivity]|].
+      constructor; [split; [exact X5|reflexivity]|constructor].
+    + unfold ex_mix.
+      repeat (apply Forall_cons; [split; [reflexivity|cbn; intros t E; inversion E; subst; cbn; auto 6]|]).
+      apply Forall_nil.
+  - unfold flat_map, traces_of, xc_out. rewrite T5, N1, N3. reflexivity.
+Qed.
+
+(* an exchange left open, and the GOAWAY hypotheses *)
+Example ex_open : exists x, exchange 3 (firstn 3 ex_s3) (Open x) /\ 1 < 3 /\ 1 <> 0 /\
+  map t_events (x_abandoned x (EConn 0)) =
+  [[TReqStart; TReqEnd ENil; TRespStart 200 [ex_ct]; TRespData 0 (Some (0, 9)) 1; TRespEnd (EConn 0)]].
+Proof.
+  eexists. split; [|split; [reflexivity|split; [discriminate|]]].
+  - cbn [firstn ex_s3]. eapply X_headers_end. eapply S_resp_headers; [reflexivity|]. eapply S_resp_data; [reflexivity|].
+    apply S_open.
+  - vm_compute. reflexivity.
+Qed.
+Example ex_spares : Forall (spares 1) (firstn 4 ex_mix) /\ no_name_on 5 ex_mix.
+Proof.
+  split; [repeat constructor|].
+  intros es fields I. cbn in I.
+  repeat (destruct I as [I|I]; [inversion I; subst; reflexivity|]). destruct I.
+Qed.
